@@ -27,7 +27,7 @@ from vlib import f2b, fs2b, b2f, b2fs
 from props import c01
 
 ID = "C18"
-GEN = ["LeavesAst", "Leaves", "DistAst", "VecAst"]
+GEN = ["LeavesAst", "Leaves", "DistAst", "VecAst", "SplineAst", "TriAst"]
 RULE = ("[families] every family (Normal, LogNormal, Uniform, Gumbel, Cauchy, StudentT, Laplace, Exponential, Logistic and the eight standard bases) x "
         "private `_log_prob` and public `log_prob` x trainable leaves far from their initial values (loc up to 1e3, raw scale/df from -20 to 40) x inputs on the "
         "support ends, at loc (|.| at 0), outside the support, at magnitudes 1e3..1e300: value and d/dx, d/d(every trainable leaf) from the Float instance "
@@ -142,6 +142,8 @@ def corr(c, tier, rng):
     corr_planar(c, tier, rng)
     corr_mixture(c, tier, rng)
     corr_nets(c, tier, rng)
+    corr_spline_nets(c, tier, rng)
+    corr_mvn(c, tier, rng)
 
 
 def cmp_pairs(c, name, pairs, **info):
@@ -488,6 +490,183 @@ def corr_nets(c, tier, rng):
                     pairs += [(f"db{l}[{j}]", a, float(np.asarray(jb[l][k])[j])) for j, a in enumerate(b2fs(t[4 + 2 * l]))]
             cmp_pairs(c, "network-ast-vs-jax.jacrev", pairs, kind=kind, activation=act, output=k, x=x)
         c.case(("network", kind, act, tuple(x), i), True, sample={"op": line[:200], "model": got[:200]} if i % 80 == 0 else None)
+
+
+# ------------------------------------------------------------------ coupling / MAF with the rational-quadratic-spline transformer
+from flowjax.bijections.rational_quadratic_spline import RationalQuadraticSpline as _RQS
+from flowjax.utils import get_ravelled_pytree_constructor as _ravel_ctor
+
+_SNET_JIT = {}
+
+
+def snet_real(b, kind, x, cond, tag):
+    arrs = net_layers(b)
+    if (tag, kind) not in _SNET_JIT:
+        def f(x, cond, ws, bs):
+            bb = net_set(b, ws, bs)
+            cc = cond if cond.shape[0] else None
+            y, ld = bb.inverse_and_log_det(x, cc) if kind.endswith("_i") else bb.transform_and_log_det(x, cc)
+            return jnp.concatenate([y, ld[None]])
+        _SNET_JIT[(tag, kind)] = (jax.jit(f), jax.jit(jax.jacrev(f, argnums=(0, 1, 2, 3))))
+    f, jf = _SNET_JIT[(tag, kind)]
+    args = (jnp.asarray(x, float), jnp.asarray(cond, float), [jnp.asarray(a[0]) for a in arrs], [jnp.asarray(a[2]) for a in arrs])
+    return np.asarray(f(*args)), jf(*args)
+
+
+def snet_line(b, kind, act, u, x, cond, tr, init):
+    parts = []
+    for w, m, bi in net_layers(b):
+        parts += [fs2b(w.reshape(-1)), fs2b(m.reshape(-1).astype(float)) if m is not None else "-", fs2b(bi)]
+    lo, hi = tr.interval
+    return (f"adspline {kind} {act} {u} {fs2b(x)} {fs2b(cond)} {tr.knots} {f2b(float(lo))} {f2b(float(hi))} {f2b(float(tr.softmax_adjust))} "
+            f"{f2b(float(tr.min_derivative))} {fs2b(init)} " + " ".join(parts))
+
+
+def snet_knots(b, kind, x, cond, u):
+    """x-knots (forward) / y-knots (inverse) the real layer uses for every transformed dimension at this input"""
+    cc = jnp.asarray(cond, float) if len(cond) else None
+    xin = jnp.asarray(x, float)
+    if isinstance(b, B.Coupling):
+        nn_in = xin[:u] if cc is None else jnp.hstack((xin[:u], cc))
+        tr = unwrap(b._flat_params_to_transformer(b.conditioner(nn_in)))
+    else:
+        nn_in = xin if cc is None else jnp.hstack((xin, cc))
+        tr = unwrap(b._flat_params_to_transformer(unwrap(b.masked_autoregressive_mlp)(nn_in)))
+    inner = tr.bijection
+    return np.asarray(inner.y_pos if kind.endswith("_i") else inner.x_pos)
+
+
+def corr_spline_nets(c, tier, rng):
+    # (dim, untransformed, width, depth, cond_dim, knots, interval, min_derivative, softmax_adjust)
+    shapes = [(2, 1, 3, 1, 0, 3, (-2, 2), 1e-3, 1e-2), (3, 1, 3, 1, 2, 2, (1.0, 3.0), 0.05, 0.5), (3, 2, 2, 0, 0, 1, (-1, 1), 1e-3, 0.0)]
+    if tier != "quick":
+        shapes += [(4, 2, 4, 2, 1, 4, (-3, 3), 1e-3, 1e-2), (2, 1, 1, 2, 0, 5, (-0.5, 4.0), 0.2, 1.0)]
+    jobs = []
+    for dim, u, width, depth, cd, K, iv, md, adj in shapes:
+        for act, actf in (("relu", jax.nn.relu), ("tanh", jnp.tanh)):
+            tr = net_perturb(_RQS(knots=K, interval=iv, min_derivative=md, softmax_adjust=adj), rng, rng.choice([0.0, 0.7]))
+            init = [float(v) for v in np.asarray(jax.flatten_util.ravel_pytree(eqx.filter(tr, eqx.is_inexact_array))[0])]
+            assert len(init) == 3 * K + 2
+            kw = dict(cond_dim=cd) if cd else {}
+            cp = net_perturb(B.Coupling(jr.key(rng.randrange(1000)), transformer=tr, untransformed_dim=u, dim=dim, nn_width=width,
+                                        nn_depth=depth, nn_activation=actf, **kw), rng, rng.choice([0.3, 1.2]))
+            maf = net_perturb(B.MaskedAutoregressive(jr.key(rng.randrange(1000)), transformer=tr, dim=dim, nn_width=max(width, dim),
+                                                     nn_depth=max(depth, 1), nn_activation=actf, **kw), rng, rng.choice([0.3, 1.2]))
+            cp0 = net_set(cp, [a[0] for a in net_layers(cp)], [np.zeros_like(a[2]) for a in net_layers(cp)])
+            lo, hi = float(iv[0]), float(iv[1])
+            tag = (dim, u, width, depth, cd, K, iv, act)
+            cond = [rng.uniform(-1, 1) for _ in range(cd)]
+            mid = [rng.uniform(lo, hi) for _ in range(dim)]
+            pts = [mid, [lo] * dim, [hi] * dim, [lo - 1.5] * dim, [hi + 2.0] * dim, [np.nextafter(lo, -np.inf)] * dim, [np.nextafter(hi, np.inf)] * dim,
+                   [0.0] * dim, [lo] + [hi] * (dim - 1), [1e6] * dim]
+            for b, kinds, uu in ((cp, ("coupling_t", "coupling_i"), u), (maf, ("maf_t",), 0)):
+                for kind in kinds:
+                    for x in pts:
+                        jobs.append((b, kind, act, uu, list(map(float, x)), cond, tr, init, tag, "grid"))
+                    # just beside interior knots of the bins this very input selects (exact ties on computed knots would depend on the last
+                    # bit of softmax/cumsum; the interval ends above ARE exact: they are padded constants)
+                    base = list(mid)
+                    for side in (-1e-9, 1e-9):
+                        x = list(base)
+                        for rep in range(2):  # MAF: knots of dimension i depend on x[:i]; one refinement pass
+                            kn = snet_knots(b, kind, x, cond, uu)
+                            for i in range(kn.shape[0]):
+                                j = 1 + (i % max(1, kn.shape[1] - 2))
+                                x[uu + i] = float(kn[i][j]) + side
+                        jobs.append((b, kind, act, uu, x, cond, tr, init, tag, "knot"))
+            if cd == 0:
+                jobs += [(cp0, "coupling_t", act, u, [0.0] * dim, [], tr, init, tag, "relu0"), (cp0, "coupling_i", act, u, [0.0] * dim, [], tr, init, tag, "relu0")]
+    lines = [snet_line(b, kind, act, u, x, cond, tr, init) for b, kind, act, u, x, cond, tr, init, _, _ in jobs]
+    outs = vlib.run_model(lines)
+    for i, ((b, kind, act, u, x, cond, tr, init, tag, what), line, got) in enumerate(zip(jobs, lines, outs)):
+        if got.startswith("ERR"):
+            c.mismatch("spline-network-ast-vs-jax.jacrev", op=line[:300], model=got)
+            continue
+        val, (jx, jc, jw, jb) = snet_real(b, kind, x, cond, tag)
+        allfinite = bool(np.all(np.isfinite(val)))
+        # inverse direction with an input EXACTLY on a knot / interval end: the computed pre-image lands within an ulp of a knot, where
+        # `clip`'s tie rule and the bin looked up by `derivative(x)` (second derivative jumps there) depend on the last bit —
+        # there the adjoints are compared by special-value class only (finite vs finite), values numerically
+        tie = False
+        if kind.endswith("_i"):
+            kn = snet_knots(b, kind, x, cond, u)
+            tie = any(float(x[u + i]) in set(map(float, kn[i])) for i in range(kn.shape[0]))
+        c.count("spline-network:" + kind + ":" + act + ":" + what + (":tie-class-only" if tie else ""))
+        for k, part in enumerate(got.split(" | ")):
+            t = part.split()
+            pairs = [("value", b2f(t[0]), float(val[k]))]
+            if allfinite:
+                pairs += [(f"dx{j}", a, float(jx[k][j])) for j, a in enumerate(b2fs(t[2]))]
+                pairs += [(f"dcond{j}", a, float(jc[k][j])) for j, a in enumerate(b2fs(t[3]))]
+                for l in range(len(jw)):
+                    pairs += [(f"dW{l}[{j}]", a, float(np.asarray(jw[l][k]).reshape(-1)[j])) for j, a in enumerate(b2fs(t[4 + 2 * l]))]
+                    pairs += [(f"db{l}[{j}]", a, float(np.asarray(jb[l][k])[j])) for j, a in enumerate(b2fs(t[5 + 2 * l]))]
+            if tie:
+                for q, a_, b_ in pairs[1:]:
+                    if vlib.fclass(a_) != vlib.fclass(b_):
+                        c.mismatch("spline-network-ast-vs-jax.jacrev", quantity=q, model=a_, impl=b_, model_class=vlib.fclass(a_), impl_class=vlib.fclass(b_),
+                                   kind=kind, activation=act, output=k, x=x, what=what + ":class")
+                pairs = pairs[:1]
+            cmp_pairs(c, "spline-network-ast-vs-jax.jacrev", pairs, kind=kind, activation=act, output=k, x=x, what=what)
+        c.case(("spline-network", kind, act, tuple(x), i), True, sample={"op": line[:200], "model": got[:200]} if i % 80 == 0 else None)
+
+
+# ------------------------------------------------------------------ MultivariateNormal / TriangularAffine (Gen/TriAst.lean + Model/AdMvn.lean)
+_MVN_JIT = {}
+
+
+def mvn_build(loc, raw, arr):
+    n = len(loc)
+    d = D.MultivariateNormal(jnp.zeros(n), jnp.eye(n))
+    get = lambda t: (t.bijection.loc, t.bijection.triangular.kwargs["diag"].arr, t.bijection.triangular.kwargs["arr"])
+    return eqx.tree_at(get, d, (jnp.asarray(loc, float), jnp.asarray(raw, float), jnp.asarray(arr, float).reshape(n, n)))
+
+
+def mvn_real(mode, x, loc, raw, arr):
+    n = len(x)
+    if (mode, n) not in _MVN_JIT:
+        def f(x, loc, raw, arr):
+            d = mvn_build(loc, raw, arr)
+            if mode == "lp":
+                return d._log_prob(x)[None]
+            b = unwrap(d.bijection)
+            y, ld = b.inverse_and_log_det(x) if mode == "il" else b.transform_and_log_det(x)
+            return jnp.concatenate([y, ld[None]])
+        _MVN_JIT[(mode, n)] = (jax.jit(f), jax.jit(jax.jacrev(f, argnums=(0, 1, 2, 3))))
+    f, jf = _MVN_JIT[(mode, n)]
+    args = (jnp.asarray(x, float), jnp.asarray(loc, float), jnp.asarray(raw, float), jnp.asarray(arr, float).reshape(n, n))
+    return np.asarray(f(*args)), jf(*args)
+
+
+def corr_mvn(c, tier, rng):
+    jobs = []
+    for n in (1, 2, 3) if tier == "quick" else (1, 2, 3, 4, 5):
+        for rep in range(3 if tier == "quick" else 6):
+            loc = [rng.uniform(-3, 3) for _ in range(n)]
+            raw = [rng.choice([-20.0, -3.0, 0.0, 0.5413248546129181, 5.0, 40.0]) if rep else rng.uniform(-2, 2) for _ in range(n)]
+            arr = [rng.choice([0.0, -1.5, 2.0, 1e3]) if rep == 1 else rng.uniform(-2, 2) for _ in range(n * n)]
+            xs = [[rng.uniform(-3, 3) for _ in range(n)], list(loc), [0.0] * n, [1e6] * n, [-1e3] + [2.0] * (n - 1)]
+            for x in xs:
+                for mode in ("lp", "il", "tl"):
+                    jobs.append((mode, x, loc, raw, arr))
+    lines = [f"admvn {m} {fs2b(x)} {fs2b(loc)} {fs2b(raw)} {fs2b(arr)}" for m, x, loc, raw, arr in jobs]
+    outs = vlib.run_model(lines)
+    for i, ((mode, x, loc, raw, arr), line, got) in enumerate(zip(jobs, lines, outs)):
+        if got.startswith("ERR"):
+            c.mismatch("mvn-ast-vs-jax.jacrev", op=line[:300], model=got)
+            continue
+        val, js = mvn_real(mode, x, loc, raw, arr)
+        allfinite = bool(np.all(np.isfinite(val)))
+        n = len(x)
+        c.count(f"mvn:{mode}:n={n}")
+        for k, part in enumerate(got.split(" | ")):
+            t = part.split()
+            pairs = [("value", b2f(t[0]), float(val[k]))]
+            if allfinite:
+                for nm, col, J in (("dx", 2, js[0]), ("dloc", 3, js[1]), ("draw_diag", 4, js[2]), ("darr", 5, js[3])):
+                    pairs += [(f"{nm}[{j}]", a, float(np.asarray(J[k]).reshape(-1)[j])) for j, a in enumerate(b2fs(t[col]))]
+            cmp_pairs(c, "mvn-ast-vs-jax.jacrev", pairs, mode=mode, output=k, x=x, loc=loc, raw=raw, arr=arr)
+        c.case(("mvn", mode, tuple(x), tuple(raw), tuple(arr)), True, sample={"op": line[:200], "model": got[:200]} if i % 60 == 0 else None)
 
 
 def corr_leaves(c, tier, rng):
